@@ -268,6 +268,9 @@ inductive Ctx where
   | named (n : String)   -- a module-level / user-defined interpretation object
   | memoize              -- `funsor.interpretations.memoize()` (generator-based context manager; fresh cache)
   | memoShared (c : Nat) -- `memoize(cache=d_c)`: the user's own dict `d_c`, possibly used under several bases
+  | built (i : I)        -- an interpretation OBJECT constructed earlier, elsewhere (`m = Memoize(P)`,
+                         -- `PrioritizedInterpretation(P, lazy)`, a StatefulInterpretation instance …): constructing
+                         -- is pure w.r.t. the stack, the object holds only its arguments; it is ENTERED here
   | tape                 -- `AdjointTape()`
   | subst (live : Bool)  -- `SubstituteInterpretation(subs, get_interpretation())`: `live` = the one pushed
                          -- by `terms.substitute` for the probe at hand; `false` = one with unrelated subs
@@ -314,6 +317,7 @@ def ctxObj (env : Env) (c : Ctx) (s : Stack) (next : Nat) : Except Err (I × Nat
   | .memoShared c => match top? s with   -- base_interpretation = get_interpretation(); cache = d_c
     | some t => .ok (.memo c true t, next)
     | none => .error .emptyStack
+  | .built i => .ok (i, next)
   | .tape => match top? s with           -- self._old_interpretation = interpreter.get_interpretation()
     | some t => .ok (.tape t, next)
     | none => .error .emptyStack
